@@ -90,6 +90,8 @@ def check(run: Run) -> None:
     run.rule("C15.R1", "macro hygiene: the text substituted for {name} is parenthesised whenever the saved clause can contain '|'")
     run.rule("C15.R2", "error discipline: every result of expand_saved_queries/_get_saved_where_filter is tested for None before use and None becomes an error")
     run.rule("C15.R3", "nesting: _get_saved_where_filter re-expands the names found in the clause it read, through itself")
+    run.rule("C15.R5", "every brace pair is a reference: the name pattern is '{' (any character but a brace)* '}', so no spelling of {name} slips through unexpanded and unreported")
+    reference_pattern(run, model)
     run.rule("C15.R4", "freshness: the clause is read from the .zoq file on every call; no module-level cache")
     fe, fs = model.func(F_EXPAND), model.func(F_SAVED)
 
@@ -211,3 +213,86 @@ def check(run: Run) -> None:
                   "a path returns a clause without reading the saved query's file on this call", file=FILE, node=ret, detail=dict(path=p.describe()))
     run.units = dict(functions=[F_EXPAND, F_SAVED, F_NAMES])
     run.assumptions += ["cyclic saved-query sets are excluded by the statement", "the query grammar parses '(' or_filter ')' as a grouped sub-filter"]
+
+
+def _regex_class(item) -> "set[str] | None":
+    """Printable-ASCII characters a one-character regex item can match (None: not a one-character item)."""
+    import re._constants as sc
+
+    U = {chr(c) for c in range(32, 127)}
+    op, av = item
+    if op is sc.ANY:
+        return set(U)
+    if op is sc.LITERAL:
+        return {chr(av)} & U
+    if op is sc.NOT_LITERAL:
+        return U - {chr(av)}
+    if op is sc.IN:
+        neg = False
+        acc: set[str] = set()
+        for o2, a2 in av:
+            if o2 is sc.NEGATE:
+                neg = True
+            elif o2 is sc.LITERAL:
+                acc.add(chr(a2))
+            elif o2 is sc.RANGE:
+                acc |= {chr(c) for c in range(a2[0], a2[1] + 1)}
+            elif o2 is sc.CATEGORY:
+                cat = {sc.CATEGORY_WORD: {c for c in U if c.isalnum() or c == "_"}, sc.CATEGORY_DIGIT: set("0123456789"), sc.CATEGORY_SPACE: {" "},
+                       sc.CATEGORY_NOT_WORD: {c for c in U if not (c.isalnum() or c == "_")}, sc.CATEGORY_NOT_DIGIT: U - set("0123456789"), sc.CATEGORY_NOT_SPACE: U - {" "}}.get(a2)
+                if cat is None:
+                    return None
+                acc |= cat
+            else:
+                return None
+        return (U - acc) if neg else (acc & U)
+    return None
+
+
+def reference_pattern(run: Run, model: PyModel) -> None:
+    import re._constants as sc
+    import re._parser as sp
+
+    from ..shapes import Const, ShapeEval
+
+    fi = model.func(F_NAMES)
+    se = ShapeEval(model, fi)
+    calls = [c for c in ast.walk(fi.node) if isinstance(c, ast.Call) and ast.unparse(c.func) in ("re.findall", "re.finditer", "re.compile")]
+    run.floor("regex uses in _get_saved_query_names", len(calls), 1)
+    for c in calls:
+        pats = []
+        for sh in se.eval(c.args[0]):
+            if len(sh) == 1 and isinstance(sh[0], Const):
+                pats.append(sh[0].text)
+            else:
+                pats = None
+                break
+        if not pats:
+            run.undecided("C15.R5", "_get_saved_query_names", f"pattern `{ast.unparse(c.args[0])}` is not a constant")
+            continue
+        for pat in pats:
+            try:
+                items = list(sp.parse(pat))
+            except Exception as e:
+                run.undecided("C15.R5", "_get_saved_query_names", f"cannot parse {pat!r}: {e}")
+                continue
+            ok = len(items) == 3 and items[0] == (sc.LITERAL, ord("{")) and items[2] == (sc.LITERAL, ord("}")) and items[1][0] is sc.SUBPATTERN
+            missing = None
+            if ok:
+                body = list(items[1][1][3])
+                ok = len(body) == 1 and body[0][0] in (sc.MAX_REPEAT, sc.MIN_REPEAT) and len(body[0][1][2]) == 1
+                if ok:
+                    lo, hi, inner = body[0][1]
+                    cls = _regex_class(inner[0])
+                    U = {chr(x) for x in range(32, 127)} - {"{", "}"}
+                    if cls is None or hi is not sc.MAXREPEAT or lo > 1:
+                        ok = False
+                    else:
+                        missing = sorted(U - cls)
+                        ok = not missing and "}" not in (cls if body[0][0] is sc.MAX_REPEAT else set())
+            if missing:
+                msg = (f"the reference pattern {pat!r} only recognises names made of a restricted alphabet (not {''.join(missing)[:24]!r}...): `{{weekly-review}}` or `{{work/inbox}}` is not seen as a reference, "
+                       "stays in the query text unexpanded and no 'does not exist' error is raised for it")
+            else:
+                msg = f"the reference pattern {pat!r} is not of the form '{{' (any non-brace)* '}}'"
+            run.check("C15.R5", f"reference pattern {pat!r} recognises every brace pair", ok, "_get_saved_query_names", pat, msg, file=FILE, node=c)
